@@ -43,9 +43,9 @@ def main():
             result["tests"] = r.stdout.strip()
         demo = os.path.join(mdir, "demo.py")
         if os.path.exists(demo):
-            r = sh(f"cd {wt} && /venv/bin/python {demo} 2>&1 | tail -2")
+            r = sh(f"cd {wt} && PYTHONPATH={wt} /venv/bin/python {demo} 2>&1 | tail -2")
             result["demo_with_patch"] = r.stdout.strip()[-200:]
-            r2 = sh(f"cd /repo && /venv/bin/python {demo} 2>&1 | tail -1")
+            r2 = sh(f"cd /repo && PYTHONPATH=/repo /venv/bin/python {demo} 2>&1 | tail -1")
             result["demo_clean"] = r2.stdout.strip()[-100:]
         for p in props:
             env = dict(os.environ, FLODYM_REPO=wt, VERIF_OUT_DIR=out)
